@@ -3,20 +3,43 @@
    [run_plan] executes the emitted nested graphs node by node (the emitted model with names erased: which application
    sits in which graph in which order; the naming layer is C02's).  The statement holds for EVERY operator semantics. *)
 From Coq Require Import List String NArith Arith Bool.
-From Spox Require Import Base IR Show Build Sem Plan Validate BuildFacts SemFacts.
+From Spox Require Import Base IR Show Build Sem Plan Named Validate BuildFacts SemFacts NamedFacts.
 Import ListNotations.
 
 Theorem C01_build_sem :
   forall p r m inputs outputs,
   build_checked p r = inl m -> all_vars (r_inputs r) = Some inputs -> all_vars (r_outputs r) = Some outputs ->
-  let p' := with_main p (Some (main_args inputs)) outputs in
+  let p' := final_prog p r inputs outputs in
   forall (val : Type) (dv : val) (opsem : nat -> list (option val) -> list (clos val) -> list val),
   (forall n ivs c1 c2, Forall2 (fun a b => forall av, a av = b av) c1 c2 -> opsem n ivs c1 = opsem n ivs c2) ->
   forall av : list val,
   run_plan p' 0 val dv opsem (plan_of_graph p' 0 (mmain m)) av =
-  map (meaning p' 0 val dv opsem (bindv val dv (main_args inputs) av)) (map snd outputs).
+  map (meaning p' 0 val dv opsem (bindv val dv (request_args p r inputs outputs) av)) (map snd outputs).
 Proof. exact build_sem. Qed.
 Print Assumptions C01_build_sem.
+
+(* End to end on the emitted model AS EMITTED: executing the nested graphs by value NAMES, the way ONNX executes them (a node reads
+   the names defined earlier in its graph or in an enclosing graph; omitted trailing optionals read as absent), yields the meaning of
+   each requested Var.  (Inlined blocks and function calls are single abstract operator applications here: C08 / C14.) *)
+Theorem C01_build_sem_named :
+  forall p r m inputs outputs,
+  build_checked p r = inl m -> all_vars (r_inputs r) = Some inputs -> all_vars (r_outputs r) = Some outputs ->
+  let p' := final_prog p r inputs outputs in
+  forall (val : Type) (dv : val) (opsem : nat -> list (option val) -> list (clos val) -> list val),
+  (forall n ivs c1 c2, Forall2 (fun a b => forall av, a av = b av) c1 c2 -> opsem n ivs c1 = opsem n ivs c2) ->
+  forall av : list val,
+  run_named p' 0 val dv opsem (mmain m) [] av =
+  map (meaning p' 0 val dv opsem (bindv val dv (request_args p r inputs outputs) av)) (map snd outputs).
+Proof. exact build_sem_named. Qed.
+Print Assumptions C01_build_sem_named.
+
+(* Names erased = names kept: for ANY table Var -> name that is injective and consistent with the emitted model. *)
+Theorem C01_named_is_plan :
+  forall p main (val : Type) (dv : val) (opsem : nat -> list (option val) -> list (clos val) -> list val),
+  (forall n ivs c1 c2, Forall2 (fun a b => forall av, a av = b av) c1 c2 -> opsem n ivs c1 = opsem n ivs c2) ->
+  forall tbl, table_inj tbl = true -> forall g, Pg p main val dv opsem tbl g.
+Proof. exact named_is_plan. Qed.
+Print Assumptions C01_named_is_plan.
 
 (* The abstract core: ANY well-formed linearisation of a program into nested graphs (every input defined earlier in the same or
    an enclosing graph, outputs fresh, body arguments local) computes the program's meaning — creation order, which callback made
@@ -37,7 +60,7 @@ Print Assumptions C01_linearisation_correct.
 Theorem C01_unrequested_irrelevant :
   forall p r m inputs outputs, build_checked p r = inl m ->
   all_vars (r_inputs r) = Some inputs -> all_vars (r_outputs r) = Some outputs ->
-  forall u, In u (srcs_graph (mmain m)) <-> In u (reachable (with_main p (Some (main_args inputs)) outputs) 0).
+  forall u, In u (srcs_graph (mmain m)) <-> In u (reachable (final_prog p r inputs outputs) 0).
 Proof. intros p r m i o H Hi Ho. apply build_checked_inv in H. destruct H as [_ Hv].
   exact (proj2 (emitted_exactly_once p r m i o Hi Ho Hv)). Qed.
 Print Assumptions C01_unrequested_irrelevant.
